@@ -13,6 +13,8 @@ struct Base {
     vars: Vec<(usize, Ty, bool)>,
     direct: bool,          // WHERE directly after MATCH (else after WITH vars)
     shape: &'static str,
+    /// inline property map of the pattern: (variable, key, constant)
+    inline: Option<(usize, String, MV)>,
 }
 
 fn lab(r: &mut Rng) -> String {
@@ -25,35 +27,64 @@ fn arrow(r: &mut Rng, rel: &str) -> String {
     match r.below(4) { 0 => format!("<-[{}]-", rel), 1 => format!("-[{}]-", rel), _ => format!("-[{}]->", rel) }
 }
 
-fn gen_base(r: &mut Rng) -> Base {
-    match r.below(10) {
-        0..=1 => Base { text: format!("MATCH (v0{})", lab(r)), vars: vec![(0, Ty::Node, false)], direct: r.chance(3, 4), shape: "node" },
+fn inline_const(r: &mut Rng, kv: &BTreeMap<String, Vec<MV>>, key: &str) -> MV {
+    let pool: Vec<MV> = kv.get(key).cloned().unwrap_or_default().into_iter().filter(|v| matches!(v, MV::Int(i) if *i >= 0) || matches!(v, MV::Str(_) | MV::Bool(_))).collect();
+    if pool.is_empty() || r.chance(1, 5) { MV::Int(r.range(0, 3)) } else { r.pick(&pool).clone() }
+}
+
+fn gen_base(r: &mut Rng, kv: &BTreeMap<String, Vec<MV>>) -> Base {
+    match r.below(13) {
+        10 => {
+            // inline property map on a node pattern: MATCH (v0:L {k: c1})
+            let key = if r.chance(2, 3) { "k" } else { *r.pick(&NODE_KEYS) };
+            let c1 = inline_const(r, kv, key);
+            let l0 = lab(r);
+            Base { text: format!("MATCH (v0{} {{{}: {}}})", l0, key, cypher_lit(&c1).unwrap()), vars: vec![(0, Ty::Node, false)], direct: true, shape: "node-inline-map", inline: Some((0, key.to_string(), c1)) }
+        }
+        11 => {
+            // inline map on the start or end node of a hop
+            let key = if r.chance(2, 3) { "k" } else { *r.pick(&NODE_KEYS) };
+            let c1 = inline_const(r, kv, key);
+            let on = if r.chance(1, 2) { 0 } else { 2 };
+            let ty = typ(r);
+            let m = format!(" {{{}: {}}}", key, cypher_lit(&c1).unwrap());
+            let t = format!("MATCH (v0{}){}(v2{})", if on == 0 { m.clone() } else { String::new() }, arrow(r, &format!("v1{}", ty)), if on == 2 { m } else { String::new() });
+            Base { text: t, vars: vec![(0, Ty::Node, false), (1, Ty::Rel, false), (2, Ty::Node, false)], direct: true, shape: "hop-node-inline-map", inline: Some((on, key.to_string(), c1)) }
+        }
+        12 => {
+            // inline map on the relationship pattern
+            let c1 = inline_const(r, kv, "w");
+            let ty = typ(r);
+            let t = format!("MATCH (v0){}(v2)", arrow(r, &format!("v1{} {{w: {}}}", ty, cypher_lit(&c1).unwrap())));
+            Base { text: t, vars: vec![(0, Ty::Node, false), (1, Ty::Rel, false), (2, Ty::Node, false)], direct: true, shape: "hop-rel-inline-map", inline: Some((1, "w".to_string(), c1)) }
+        }
+        0..=1 => Base { text: format!("MATCH (v0{})", lab(r)), vars: vec![(0, Ty::Node, false)], direct: r.chance(3, 4), shape: "node", inline: None },
         2..=4 => {
             let (l0, ty, l2) = (lab(r), typ(r), lab(r));
             let t = format!("MATCH (v0{}){}(v2{})", l0, arrow(r, &format!("v1{}", ty)), l2);
-            Base { text: t, vars: vec![(0, Ty::Node, false), (1, Ty::Rel, false), (2, Ty::Node, false)], direct: r.chance(3, 4), shape: "hop" }
+            Base { text: t, vars: vec![(0, Ty::Node, false), (1, Ty::Rel, false), (2, Ty::Node, false)], direct: r.chance(3, 4), shape: "hop", inline: None }
         }
         5..=6 => {
             let (l0, ty, l2) = (lab(r), typ(r), lab(r));
             let t = format!("MATCH (v0{}) OPTIONAL MATCH (v0){}(v2{})", l0, arrow(r, &format!("v1{}", ty)), l2);
-            Base { text: t, vars: vec![(0, Ty::Node, false), (1, Ty::Rel, true), (2, Ty::Node, true)], direct: false, shape: "optional" }
+            Base { text: t, vars: vec![(0, Ty::Node, false), (1, Ty::Rel, true), (2, Ty::Node, true)], direct: false, shape: "optional", inline: None }
         }
         7 => {
             let n = 1 + r.below(5);
             let items: Vec<String> = (0..n).map(|_| loop { let v = gen_scalar(r); if let Some(s) = cypher_lit(&v) { break s; } }).collect();
-            Base { text: format!("UNWIND [{}] AS v0", items.join(", ")), vars: vec![(0, Ty::Any, true)], direct: false, shape: "unwind" }
+            Base { text: format!("UNWIND [{}] AS v0", items.join(", ")), vars: vec![(0, Ty::Any, true)], direct: false, shape: "unwind", inline: None }
         }
         8 => {
             let n = 1 + r.below(3);
             let items: Vec<String> = (0..n).map(|_| loop { let v = gen_scalar(r); if let Some(s) = cypher_lit(&v) { break s; } }).collect();
-            Base { text: format!("MATCH (v0{}) UNWIND [{}] AS v1", lab(r), items.join(", ")), vars: vec![(0, Ty::Node, false), (1, Ty::Any, true)], direct: false, shape: "node+unwind" }
+            Base { text: format!("MATCH (v0{}) UNWIND [{}] AS v1", lab(r), items.join(", ")), vars: vec![(0, Ty::Node, false), (1, Ty::Any, true)], direct: false, shape: "node+unwind", inline: None }
         }
         _ => {
             let (t1, t3, l4) = (typ(r), typ(r), lab(r));
             let a1 = arrow(r, &format!("v1{}", t1));
             let a3 = arrow(r, &format!("v3{}", t3));
             let t = format!("MATCH (v0){}(v2){}(v4{})", a1, a3, l4);
-            Base { text: t, vars: vec![(0, Ty::Node, false), (1, Ty::Rel, false), (2, Ty::Node, false), (3, Ty::Rel, false), (4, Ty::Node, false)], direct: r.chance(1, 2), shape: "two-hop" }
+            Base { text: t, vars: vec![(0, Ty::Node, false), (1, Ty::Rel, false), (2, Ty::Node, false), (3, Ty::Rel, false), (4, Ty::Node, false)], direct: r.chance(1, 2), shape: "two-hop", inline: None }
         }
     }
 }
@@ -73,6 +104,10 @@ fn main() {
 
     // corpus first: hand-written cases (index-seek push-down, null handling, NaN)
     let corpus: Vec<(&str, Vec<(usize, Ty, bool)>, bool, Ex)> = vec![
+        ("MATCH (v0 {k: 1})", vec![(0, Ty::Node, false)], true,
+         Ex::Bin(Bin::Eq, Box::new(Ex::Prop(0, "k".into())), Box::new(Ex::Lit(MV::Int(2))))),
+        ("MATCH (v0)-[v1 {w: 1}]->(v2)", vec![(0, Ty::Node, false), (1, Ty::Rel, false), (2, Ty::Node, false)], true,
+         Ex::Bin(Bin::And, Box::new(Ex::Bin(Bin::Eq, Box::new(Ex::Prop(1, "w".into())), Box::new(Ex::Lit(MV::Int(0))))), Box::new(Ex::Un(Un::IsNotNull, Box::new(Ex::Var(0)))))),
         ("MATCH (v0:L0)", vec![(0, Ty::Node, false)], true,
          Ex::Bin(Bin::Eq, Box::new(Ex::Prop(0, "k".into())), Box::new(Ex::Lit(MV::Int(1))))),
         ("MATCH (v0)", vec![(0, Ty::Node, false)], true,
@@ -92,14 +127,32 @@ fn main() {
         let params_v: Vec<(usize, MV)> = vec![(0, gen_scalar(&mut r)), (1, MV::Int(r.range(-1, 3)))];
         let (base, pred) = if idx < corpus.len() {
             let (t, v, d, p) = &corpus[idx];
-            (Base { text: t.to_string(), vars: v.clone(), direct: *d, shape: "corpus" }, p.clone())
+            (Base { text: t.to_string(), vars: v.clone(), direct: *d, shape: "corpus", inline: None }, p.clone())
         } else {
-            let base = gen_base(&mut r);
+            let kv = graph_values(&ld.g);
+            let base = gen_base(&mut r, &kv);
             let sc = Scope { vars: base.vars.clone(), params: params_v.clone(), kvals: graph_values(&ld.g) };
             let allow_errors = r.chance(1, 6);
             let depth = 1 + r.below(3) as u32;
             let mut g = ExGen::new(&mut r, &sc, allow_errors);
-            let p = if base.direct && g.r.chance(1, 3) { g.pushdown_pred() } else { g.pred(depth) };
+            let p = if let (Some((x, key, c1)), true) = (&base.inline, g.r.chance(4, 5)) {
+                // a top-level equality conjunct on the inline-constrained variable and key: same constant, another constant,
+                // literal or parameter ($p1 is an integer), alone or under AND with other conjuncts, on either side
+                let c2 = match g.r.below(4) {
+                    0 => Ex::Lit(c1.clone()),
+                    1 => Ex::Param(1),
+                    _ => { let pool: Vec<MV> = kv.get(key).cloned().unwrap_or_default().into_iter().filter(|v| v != c1 && (matches!(v, MV::Int(i) if *i >= 0) || matches!(v, MV::Str(_) | MV::Bool(_)))).collect();
+                           Ex::Lit(if pool.is_empty() { match c1 { MV::Int(i) => MV::Int(i + 1), _ => MV::Int(0) } } else { g.r.pick(&pool).clone() }) }
+                };
+                let eq = if g.r.chance(1, 4) { Ex::Bin(Bin::Eq, Box::new(c2), Box::new(Ex::Prop(*x, key.clone()))) } else { Ex::Bin(Bin::Eq, Box::new(Ex::Prop(*x, key.clone())), Box::new(c2)) };
+                g.kinds.entry("inline-map+where-equality".to_string()).and_modify(|c| *c += 1).or_insert(1);
+                match g.r.below(4) {
+                    0 => eq,
+                    1 => Ex::Bin(Bin::And, Box::new(eq), Box::new(g.pred(1))),
+                    2 => Ex::Bin(Bin::And, Box::new(g.pred(1)), Box::new(eq)),
+                    _ => Ex::Bin(Bin::And, Box::new(Ex::Bin(Bin::And, Box::new(g.pred(1)), Box::new(eq))), Box::new(g.pred(1))),
+                }
+            } else if base.direct && g.r.chance(1, 3) { g.pushdown_pred() } else { g.pred(depth) };
             for (k, v) in g.kinds { *kinds.entry(k).or_insert(0) += v; }
             (base, p)
         };
@@ -125,7 +178,7 @@ fn main() {
         let input = json!({"graph": js_graph(&ld.g), "params": params_v.iter().map(|(i, v)| (param_name(*i), canon(v))).collect::<BTreeMap<_, _>>(),
             "q_base": q_base, "q_true": q_true, "q_false": q_false, "q_null": q_null, "q_val": q_val,
             "base": js_outcome(&o_base), "true": js_outcome(&o_true), "false": js_outcome(&o_false), "null": js_outcome(&o_null), "val": js_outcome(&o_val)});
-        if idx < 4 { rep.case(idx, input.clone()); }
+        if idx < 6 { rep.case(idx, input.clone()); }
 
         let all = [&o_base, &o_true, &o_false, &o_null, &o_val];
         if all.iter().any(|o| matches!(o, Outcome::Err(5, _))) {
@@ -155,6 +208,15 @@ fn main() {
                 union.extend(f.iter().cloned());
                 union.extend(n.iter().cloned());
                 union.extend(ill.iter().cloned());
+                // each filtered result is a sub-multiset of the unfiltered result (a filter never invents rows)
+                for (name, part) in [("WHERE p", t), ("WHERE NOT p", f), ("WHERE p IS NULL", n)] {
+                    let mut rest = multiset(&base_rows);
+                    let extra = multiset(part).into_iter().filter(|row| match rest.iter().position(|b| b == row) { Some(i) => { rest.remove(i); false } None => true }).count();
+                    if extra > 0 {
+                        fails += 1;
+                        rep.fail(idx, None, &format!("{} returns {} row(s) that the unfiltered query does not return", name, extra), input.clone());
+                    }
+                }
                 if multiset(&union) != multiset(&base_rows) {
                     fails += 1;
                     rep.fail(idx, None, &format!("WHERE p / NOT p / p IS NULL do not partition the rows: {} + {} + {} (+{} ill-typed) vs {} rows", t.len(), f.len(), n.len(), ill.len(), base_rows.len()), input.clone());
@@ -210,7 +272,7 @@ fn main() {
         "evaluations": evaluations,
         "corr_cases": cw.total,
         "distinct_nontrivial": nontrivial.len(),
-        "rule": "a case = random graph (<=5 nodes, parallel relationships, self loops, mixed-type properties incl. NaN/±0/±inf/2^53±1) x base query (node / hop in 3 directions / OPTIONAL MATCH / UNWIND / node+UNWIND / two hops; labels, types) x typed predicate (depth 1-3); 5 engine runs per case; non-trivial = base query has rows and the predicate evaluates without error, distinct by query text",
+        "rule": "a case = random graph (<=5 nodes, parallel relationships, self loops, mixed-type properties incl. NaN/±0/±inf/2^53±1) x base query (node / hop in 3 directions / inline property maps on node and relationship patterns combined with WHERE equalities on the same key / OPTIONAL MATCH / UNWIND / node+UNWIND / two hops; labels, types) x typed predicate (depth 1-3); 5 engine runs per case; non-trivial = base query has rows and the predicate evaluates without error, distinct by query text",
         "histogram": hist,
         "direct_failures": fails,
         "case_files": cw.files.iter().map(|p| p.to_string_lossy().to_string()).collect::<Vec<_>>(),
